@@ -38,7 +38,7 @@ func (c18) RequiredBuckets(tier string) []string {
 		"match-table:cell", "match-table:row", "literal-bytes", "metachar-queries",
 		"match:multi", "match:overlap-suppressed", "match:ambiguity", "match:case-fold",
 		"search:overlapping", "search:case-fold", "search:hit", "search:no-hit", "empty-inputs",
-	}, "cli:search", "cli:search -e", "cli:search --no-complement")
+	}, "cli:search", "cli:search -e", "cli:search --no-complement", "cli:search RNA record", "cli:search stream", "cli:search query file", "cli:search several queries", "cli:search query longer than a record")
 }
 
 const (
